@@ -2,7 +2,11 @@
 
 package db
 
-import "fmt"
+import (
+	"fmt"
+	"hash/crc32"
+	"sort"
+)
 
 // helpers for verification hooks (build tag `verif`)
 
@@ -68,4 +72,54 @@ func verifCollIdx(idx *int) int {
 		return -1
 	}
 	return *idx
+}
+
+// --- H2: change cache ---
+
+func verifHash(s string) uint32 {
+	if s == "" {
+		return 0
+	}
+	return crc32.ChecksumIEEE([]byte(s))
+}
+
+func verifEntryKind(e *LogEntry) string {
+	switch {
+	case e.UnusedSequence:
+		return "unused"
+	case e.IsPrincipal:
+		return "princ"
+	}
+	return "doc"
+}
+
+// verifSkipped returns the skipped list as [start,end] ranges (the skiplist has its own lock).
+func (c *changeCache) verifSkipped() [][2]uint64 {
+	res := [][2]uint64{}
+	for e := c.skippedSeqs.list.Front(); e != nil; e = e.Next() {
+		k := e.Key()
+		res = append(res, [2]uint64{k.Start, k.End})
+	}
+	return res
+}
+
+// verifPre is a digest of the state at the start of a critical section (next, #pending, #skipped, #received): a converter
+// can tell whether the state was changed behind the API between two hook events. The caller holds c.lock.
+func (c *changeCache) verifPre() [4]uint64 {
+	return [4]uint64{c.nextSequence, uint64(len(c.pendingLogs)), uint64(c.skippedSeqs.list.GetNumSequencesInList()), uint64(len(c.receivedSeqs))}
+}
+
+// verifState is the post-state of a change cache action; the caller holds c.lock.
+func (c *changeCache) verifState() []any {
+	pend := make([][4]any, 0, len(c.pendingLogs))
+	for _, e := range c.pendingLogs {
+		pend = append(pend, [4]any{e.Sequence, e.EndSequence, verifEntryKind(e), e.TimeReceived.OlderOrEqual(c.options.CachePendingSeqMaxWait)})
+	}
+	recv := make([]uint64, 0, len(c.receivedSeqs))
+	for s := range c.receivedSeqs {
+		recv = append(recv, s)
+	}
+	sort.Slice(recv, func(i, j int) bool { return recv[i] < recv[j] })
+	return []any{"init", c.initialSequence, "next", c.nextSequence, "pend", pend, "recv", recv, "skip", c.verifSkipped(),
+		"stable", c._getMaxStableCached(c.logCtx), "hcs", c.channelCache.GetHighCacheSequence(), "mn", c.options.CachePendingSeqMaxNum}
 }
